@@ -215,7 +215,11 @@ def apply(store, op):
         kept, rdesc = merged_descs(objs)
         if any(o['n'] != first['n'] for o in objs):
             raise Inadmissible('shape')
-        t = concat_target(first)
+        t = op.get('target')
+        if t is None:
+            t = concat_target(first)
+        elif not any(k == t for k, _ in first['pdesc']):
+            raise Inadmissible('target_pdesc is not a pattern descriptor of the first object')
         mats = _copy.deepcopy(first['mats'])
         maybe = set()
         for i, o in zip(op['srcs'][1:], objs[1:]):
@@ -278,16 +282,22 @@ def apply(store, op):
                         for k, v in new['pdesc']]
         new['odesc']['p_inv'] = [p.index(i) for i in range(len(p))]
         return s + [new], set()
+    if name == 'sort_unknown':
+        raise Inadmissible('sort_by method is neither alpha nor a list')
     raise Inadmissible(f'unknown op {name}')
 
 
-def new_obj(vecs, odesc, rdesc, pdesc):
-    """initial object from condensed vectors (row-major upper triangle)"""
-    ln = len(vecs[0])
+def n_from_len(ln):
     n = 1
     while n * (n - 1) // 2 < ln:
         n += 1
     assert n * (n - 1) // 2 == ln
+    return n
+
+
+def new_obj(vecs, odesc, rdesc, pdesc):
+    """initial object from condensed vectors (row-major upper triangle)"""
+    n = n_from_len(len(vecs[0]))
     mats = []
     for v in vecs:
         m = [[(0 if a == b else None) for b in range(n)] for a in range(n)]
